@@ -11,8 +11,8 @@ NOT_APPLICABLE = {
     "C04": "statistical claim (expected FDP over a distribution of datasets under exchangeability): not expressible "
            "as a single-run function contract; its structural premises are decided under C01/C02/C03 (DESIGN.md 5)",
 }
-for _p in ["C01", "C02", "C03", "C05", "C06", "C07", "C08", "C09", "C11", "C12", "C13", "C14", "C15", "C16", "C17",
-           "C18", "C19", "C20"]:
+for _p in ["C01", "C02", "C03", "C05", "C06", "C07", "C08", "C09", "C11", "C12", "C14", "C15", "C16", "C17",
+           "C18", "C20"]:
     NOT_APPLICABLE[_p] = _PENDING
 
 CHECKS = {
@@ -28,5 +28,36 @@ CHECKS = {
                 "dropped; pandas/pyarrow readers not modelled",
         "technique": "sidecar contracts on the real functions; VCs from the current ast; z3/cvc5; run-time contract "
                      "evaluation as bounded stand-in",
+    },
+    "C13": {
+        "category": "other",
+        "text": "Deductive core + bounded stand-in. Proved for all inputs (unbounded): BufferedWriter._buffer_slice, "
+                "_write_buffer (flush loop with invariant and decreasing measure), append_data (DataFrame and Dicts "
+                "buffers) and finalize against the ghost content of the wrapped writer: writer content followed by "
+                "the buffer always equals everything appended, in order, for every buffer size >= 1 and every append "
+                "sequence. Bounded (not proof): every reader and writer class on the installed pandas/pyarrow over "
+                "small tables, all chunk sizes, column subsets, row-group layouts and append sequences. Two bounded "
+                "findings are listed in known_findings.json.",
+        "design_ref": "DESIGN.md 4.C13",
+        "note": "frames / lists of dicts / record arrays are one value-semantic row sequence; the wrapped writer's "
+                "append_data is an assumed contract (ghost sink); Records buffers, CSV/Parquet readers and value "
+                "round-tripping are bounded-only",
+        "technique": "sidecar contracts + ghost state on the real methods; VCs from the current ast; z3/cvc5; bounded "
+                     "read/write round trips",
+    },
+    "C19": {
+        "category": "other",
+        "text": "Deductive core + bounded stand-in. Proved for all inputs (unbounded, over abstract strings with "
+                "assumed split/join/strip contracts): parse_pin_header_columns, convert_line_pin_to_tsv (exactly n_col "
+                "fields, fields before/after the protein column unchanged wherever it stands, proteins joined, "
+                "idempotent on rectangular lines), is_valid_tsv (valid iff every line has the header's field count "
+                "and no DefaultDirection line) and pin_to_valid_tsv (header first, one converted line per PSM in "
+                "order, DefaultDirection dropped). Bounded (not proof): all small PIN texts through the real "
+                "functions on real strings, and the CLI verify step extracted from the source at run time.",
+        "design_ref": "DESIGN.md 4.C19",
+        "note": "strings abstract; str.split/join/strip/startswith/+ as assumed contracts (pyvc/libstr.py), validated "
+                "by the bounded run; file objects as line sequences with a cursor",
+        "technique": "sidecar contracts on the real functions; VCs from the current ast; z3/cvc5; exhaustive small "
+                     "texts as bounded stand-in",
     },
 }
